@@ -36,12 +36,19 @@ role "auth" (tested: server verifying a publickey USERAUTH_REQUEST)
     declares, or for another key. Every request of the connection is judged by the oracle below (a query
     or a corrupt signature must never authenticate); a server that hangs up on an earlier request ends the
     case there (counted).
+    x the server APPLICATION's verdict on the key (configuration): check_auth_publickey answers AUTH_SUCCESSFUL (public
+    key is the whole login) or AUTH_PARTIALLY_SUCCESSFUL (public key is ONE STEP of a multi-step login, allowed
+    methods "publickey,password"). A step is accepted by USERAUTH_FAILURE with partial_success = TRUE (RFC 4252 5.1)
+    and the connection goes on, so under this verdict the history may also hold an ACCEPTED earlier step (genuine
+    request for the same key blob naming an enabled algorithm) before the final request. The oracle is the same for
+    both verdicts; "accepted" = SUCCESS or FAILURE(partial_success TRUE).
 Oracle: accepted  <=>  Y == base(X or D)  and  base(X or D) in E  (cert suffix stripped)  and the
   signature really is one of algorithm Y by the key of the negotiated / declared type.
   kex: accepted = start_client returns and initial_kex_done; rejected = it raises and no NEWKEYS
        k >= 2: accepted = the re-exchange completes; rejected = the client never switches its outbound
        keys a k-th time, its byte stream (decoded by `peers.Tap`) holds k-1 NEWKEYS, its transport ends
-  auth: accepted = USERAUTH_SUCCESS and is_authenticated(); rejected = FAILURE/DISCONNECT and not authenticated
+  auth: accepted = USERAUTH_SUCCESS and is_authenticated() (verdict success) / USERAUTH_FAILURE with partial_success TRUE
+        (verdict partial); rejected = FAILURE with partial_success FALSE / DISCONNECT, and not authenticated
 """
 import os
 
@@ -68,7 +75,11 @@ RULE = (
     "connection's history: the request is sent after 0..2 earlier publickey requests (query / corrupt-signature request for the "
     "same key blob naming an enabled or the declared algorithm, or for another key): query and failed request for the same blob naming an enabled algorithm "
     "before every request whose declared algorithm is disabled, one rotating kind before the others, rotating two-request "
-    "histories, drawn histories in the repetitions. non-trivial = signature "
+    "histories, drawn histories in the repetitions; x the server application's verdict on the key (classes auth:app-verdict:success / "
+    "partial[:expect-accept|:expect-reject]): every first-request case also with check_auth_publickey answering AUTH_PARTIALLY_SUCCESSFUL "
+    "(step accepted = USERAUTH_FAILURE with partial_success TRUE), every other to-be-refused one of them also after an ACCEPTED genuine step for "
+    "the same key blob on the same connection (class auth-history:accepted-as-partial-step-before-final-request), verdict and "
+    "accepted steps drawn in the repetitions. non-trivial = signature "
     "algorithm differs from the negotiated/declared one, or that one is disabled (auth: declared; kex: the only one offered), or the request is not the connection's first; distinct by full case"
 )
 
@@ -349,6 +360,20 @@ def _auth_request(session_id, user, req, final_case):
     return peers.m_userauth_request(user, "ssh-connection", "publickey", R.boolean(True) + R.string(d) + R.string(blob) + R.string(sig))
 
 
+VERDICTS = {"success": lambda: peers.AUTH_SUCCESSFUL, "partial": lambda: peers.AUTH_PARTIALLY_SUCCESSFUL}
+
+
+def _partial_flag(payload):
+    """partial_success of a USERAUTH_FAILURE payload (name-list, boolean); None if it cannot be read."""
+    try:
+        rd = R.Reader(payload)
+        rd.string()
+        rest = rd.rest()
+    except R.RefError:
+        return None
+    return bool(rest[0]) if len(rest) == 1 else None
+
+
 def _auth_expect(req, enabled):
     d, y = req["alg"], req["sigalg"]
     madewith = req.get("hashalg") or y
@@ -361,17 +386,25 @@ def run_auth(ctx, case):
     enabled = case["enabled"]
     user = case.get("user", "u")
     history = [dict(h) for h in (case.get("history") or [])]
-    final = {k: v for k, v in case.items() if k not in ("history", "role", "enabled", "user")}
+    final = {k: v for k, v in case.items() if k not in ("history", "role", "enabled", "user", "verdict")}
     requests = history + [final]
     d, y = final["alg"], final["sigalg"]
     madewith = final.get("hashalg") or y
     expect = _auth_expect(final, enabled)
     nontriv = y != base(d) or madewith != y or base(d) not in enabled or bool(final.get("wrongtype")) or bool(history)
+    verdict = case.get("verdict", "success")  # what the server APPLICATION says about the key (check_auth_publickey)
+    if verdict not in VERDICTS:
+        raise core.HarnessError("unknown application verdict %r" % (verdict,))
     cls = ["auth", "auth:expect-accept" if expect else "auth:expect-reject", "auth:cert" if case.get("cert") else "auth:plain", "auth:requests-on-connection:%d" % len(requests)]
+    cls.append("auth:app-verdict:" + verdict)
+    cls.append("auth:app-verdict:%s:%s" % (verdict, "expect-accept" if expect else "expect-reject"))
     for h in history:
-        cls.append("auth-history:%s:%s:%s" % ("query" if not h.get("signed", True) else "failed-signed" if not _auth_expect(h, enabled) else "accepted", "other-key" if h.get("other") else "same-key", "enabled-alg" if base(h["alg"]) in enabled else "disabled-alg"))
+        hk = "query" if not h.get("signed", True) else "failed-signed" if not _auth_expect(h, enabled) else "accepted"
+        cls.append("auth-history:%s:%s:%s" % (hk, "other-key" if h.get("other") else "same-key", "enabled-alg" if base(h["alg"]) in enabled else "disabled-alg"))
+        if hk == "accepted":
+            cls.append("auth-history:accepted-as-partial-step-before-final-request")
     ctx.case(case, nontriv, cls)
-    srv = peers.RecordingServer({"check_auth_publickey": peers.AUTH_SUCCESSFUL}, allowed="publickey")
+    srv = peers.RecordingServer({"check_auth_publickey": VERDICTS[verdict]()}, allowed="publickey" if verdict == "success" else "publickey,password")
     skw = {"disabled_algorithms": {"pubkeys": [a for a in ALLKEYALGS if a not in enabled]}}
     ckw = {"disabled_algorithms": {"kex": [k for k in mitm.ALL_KEX if k != FAST_KEX]}}
     link, tc, ts = peers.make_pair(client_cls=peers.Puppet, server_cls=peers.VTransport, client_kw=ckw, server_kw=skw)
@@ -384,18 +417,22 @@ def run_auth(ctx, case):
         tc.send_raw(peers.m_service_request())
         if not tc.wait_log(lambda lg: any(e[1] == 6 for e in lg) or not ts.is_active(), 15.0) or not ts.is_active():
             raise core.HarnessError("no SERVICE_ACCEPT")
+        def _replies(lg):
+            # (type, partial_success flag of a USERAUTH_FAILURE) of every reply so far
+            return [(e[1], _partial_flag(e[2]) if e[1] == 51 else None) for e in lg if e[1] in (51, 52, 60, 1)]
+
         for req in requests:
-            seen = len([e for e in tc.log if e[1] in (51, 52, 60, 1)])
+            seen = len(_replies(tc.log))
             if not ts.is_active() or any(e[1] == 1 for e in tc.log):
                 break  # the server hung up on an earlier request: nothing more can be asked
             try:
                 tc.send_raw(_auth_request(tc.session_id, user, req, case))
             except Exception:
                 break  # connection already torn down
-            got = tc.wait_log(lambda lg: [e[1] for e in lg if e[1] in (51, 52, 60, 1)][seen:] or (not ts.is_active() and ["dead"]), 15.0)
+            got = tc.wait_log(lambda lg: _replies(lg)[seen:] or (not ts.is_active() and [("dead", None)]), 15.0)
             authed = bool(ts.is_authenticated())
-            outcomes.append((req, got[0] if got else None, authed))
-            if authed or not got or got[0] in (52, 1, "dead"):
+            outcomes.append((req, got[0][0] if got else None, authed, got[0][1] if got else None))
+            if authed or not got or got[0][0] in (52, 1, "dead"):
                 break
         checked = [c for c in srv.calls if c[0] == "check_auth_publickey"]
     finally:
@@ -404,7 +441,7 @@ def run_auth(ctx, case):
     if len(outcomes) < len(requests):
         ctx.count("auth-history:final-request-not-reached(server hung up or accepted before)")
     ok = True
-    for i, (req, got, authed) in enumerate(outcomes):
+    for i, (req, got, authed, partial) in enumerate(outcomes):
         is_final = req is final
         if got is None:
             ctx.inconc("auth:no-reply")
@@ -412,11 +449,18 @@ def run_auth(ctx, case):
         rd, ry = req["alg"], req["sigalg"]
         fam = "rsa" if base(rd) in RSA else "ec"
         want = _auth_expect(req, enabled)
-        accepted = authed or got == 52
+        # the server ACCEPTS a public-key authentication by USERAUTH_SUCCESS or, where public key is one step of
+        # several, by USERAUTH_FAILURE with partial_success = TRUE (RFC 4252 5.1)
+        accepted = authed or got == 52 or (got == 51 and partial is True)
         after = ":after-earlier-requests" if i > 0 else ""
-        if want and not (authed and got == 52):
-            ctx.violation("auth-signature-algorithm", "%s:honest-signature-rejected%s" % (fam, after), case, "request #%d: reply %r authenticated=%s; replies so far %r" % (i + 1, got, authed, [o[1] for o in outcomes]))
+        if verdict == "partial":
+            after = ":partial-success-step" + (":after-accepted-step" if any(o[3] is True for o in outcomes[:i]) else "") + after
+        honoured = (authed and got == 52) if verdict == "success" else (got == 51 and partial is True and not authed)
+        if want and not honoured:
+            ctx.violation("auth-signature-algorithm", "%s:honest-signature-rejected%s" % (fam, after), case, "request #%d: application verdict %s, reply %r partial_success=%r authenticated=%s; replies so far %r" % (i + 1, verdict, got, partial, authed, [o[1] for o in outcomes]))
             return False
+        if got == 51 and partial is None:
+            ctx.count("auth:failure-reply-without-readable-partial-flag")  # a refusal either way
         if not want and accepted:
             if not req.get("signed", True):
                 why = "signature-less-query-authenticated"
@@ -428,8 +472,8 @@ def run_auth(ctx, case):
                 "auth-signature-algorithm",
                 "%s:%s%s" % (fam, why, after),
                 case,
-                "request #%d of the connection (replies to the earlier ones: %r) declares %s, server enables pubkeys %r, signature labelled %s (made with %s%s): reply %r, is_authenticated()=%s, check_auth_publickey called %d time(s)"
-                % (i + 1, [o[1] for o in outcomes[:i]], rd, enabled, ry, req.get("hashalg") or ry, ", key " + req["wrongtype"] if req.get("wrongtype") else "", got, authed, len(checked)),
+                "request #%d of the connection (replies to the earlier ones: %r) declares %s, server enables pubkeys %r, application verdict on the key %s, signature labelled %s (made with %s%s): reply %r partial_success=%r, is_authenticated()=%s, check_auth_publickey called %d time(s)"
+                % (i + 1, [(o[1], o[3]) for o in outcomes[:i]], rd, enabled, verdict, ry, req.get("hashalg") or ry, ", key " + req["wrongtype"] if req.get("wrongtype") else "", got, partial, authed, len(checked)),
             )
             return False
     return ok
@@ -486,6 +530,8 @@ def domain():
             cases.append(dict(c, rekeys=pats[k][(j + j // 3) % len(pats[k])]))
     # role auth: the same requests as the 2nd / 3rd request of a connection
     cases += history_domain(cases)
+    # role auth: the server APPLICATION treats public key as one step of several (AUTH_PARTIALLY_SUCCESSFUL)
+    cases += verdict_domain(cases)
     return cases
 
 
@@ -517,6 +563,9 @@ def entry_domain(cases):
 # ---- histories on one connection (role auth)
 
 HISTORY_KINDS = ["query:same-key:enabled-alg", "query:same-key:declared-alg", "failed-signed:same-key:enabled-alg", "failed-signed:other-key", "query:other-key"]
+# only where the application treats public key as ONE STEP of several (verdict "partial"): an earlier request for the same
+# key blob with a genuine signature of an enabled algorithm is accepted as a step, the connection goes on
+ACCEPTED_STEP = "signed:same-key:enabled-alg"
 OTHERKEYS = ["ed25519b", "ecdsa256b", "rsa1024", "rsa2048b"]
 
 
@@ -542,12 +591,16 @@ def history_entry(final, kind):
     for f in ("key", "cert", "wrongtype"):
         if final.get(f):
             h[f] = final[f]
+    if what == "signed" and h.get("wrongtype"):
+        # the blob the final request shows is that of the foreign key: a consistent request for THAT key
+        h["key"] = h.pop("wrongtype")
     if rest == ["declared-alg"]:
         alg = final["alg"]
     else:
         alg = next((a for a in _native(final.get("wrongtype") or final["key"]) if a in enabled), None)
         if alg is None:
-            alg = base(final["alg"])
+            # (a genuine step request names an algorithm of the key it shows, enabled or not)
+            alg = _native(final.get("wrongtype") or final["key"])[0] if what == "signed" else base(final["alg"])
         if final.get("cert"):
             alg += CERT
     h.update({"alg": alg, "sigalg": base(alg)})
@@ -578,6 +631,24 @@ def history_domain(cases):
     return out
 
 
+def verdict_domain(cases):
+    """Role auth x the server application's verdict on the key: every first-request case of the domain once more with
+    check_auth_publickey answering AUTH_PARTIALLY_SUCCESSFUL (public key = one step of a multi-step login; the step is
+    accepted by USERAUTH_FAILURE with partial_success TRUE); every other one of those that must be refused also AFTER a
+    genuine request for the same key blob was accepted as a step on the same connection, every fourth after one rotating
+    earlier request of the older kinds."""
+    out = []
+    firsts = [c for c in cases if c["role"] == "auth" and not c.get("history")]
+    for j, c in enumerate(firsts):
+        p = dict(c, verdict="partial")
+        out.append(p)
+        if not _auth_expect(c, c["enabled"]) and j % 2 == 0:
+            out.append(with_history(p, [ACCEPTED_STEP]))
+        elif j % 4 == 1:
+            out.append(with_history(p, [HISTORY_KINDS[(j // 4) % len(HISTORY_KINDS)]]))
+    return out
+
+
 def _dispatch(ctx, case):
     if case["role"] == "kex":
         return run_kex(ctx, case)
@@ -596,7 +667,7 @@ def run(ctx):
         _dispatch(ctx, c)
     else:
         ctx.exhaustive = True
-        ctx.note("exhaustive_over", "role x algorithm x signature algorithm x enabled subset x (kex) exchange the lie starts in 1..2 (3: every third case) x (auth) rotating request histories (%d cases) with one key per type and one initiator history per case" % len(dom))
+        ctx.note("exhaustive_over", "role x algorithm x signature algorithm x enabled subset x (kex) exchange the lie starts in 1..2 (3: every third case) x (auth) rotating request histories x (auth) application verdict success / partial (%d cases) with one key per type and one initiator history per case" % len(dom))
     # generated repetitions: other RSA keys, other user names
     rsa_cases = [c for c in dom if base(c["alg"]) in RSA and not c.get("cert") and not c.get("wrongtype") and not c.get("rekeys") and not c.get("history")]
     gen = st.tuples(
@@ -607,6 +678,8 @@ def run(ctx):
         st.lists(st.sampled_from(HISTORY_KINDS), min_size=0, max_size=2),
         st.sampled_from(ENTRIES),
         st.sampled_from([None, None] + [s_ for s_ in subsets(RSA) if s_]),
+        st.sampled_from(["success", "success", "partial", "partial"]),
+        st.lists(st.sampled_from(HISTORY_KINDS + [ACCEPTED_STEP, ACCEPTED_STEP]), min_size=0, max_size=2),
     )
 
     def body(t):
@@ -614,8 +687,11 @@ def run(ctx):
         c["key"] = t[1]
         if c["role"] == "auth":
             c["user"] = t[2]
-            if t[4]:
-                c = with_history(c, t[4])
+            if t[7] != "success":
+                c["verdict"] = t[7]  # an accepted earlier step exists only where public key is one step of several
+            hist = t[8] if t[7] != "success" else t[4]
+            if hist:
+                c = with_history(c, hist)
         else:
             c["entry"] = t[5]
             if t[6] is not None and not c.get("hashalg"):
